@@ -250,4 +250,39 @@ theorem javg_is_mean_jitter (ms : Nat) (os : List Outcome) (h : rtts os ≠ []) 
   rw [h2, mean_eq _ (by intro h'; apply hne; unfold msOf at h'; exact List.map_eq_nil_iff.1 h')]
   simp [msOf, hlen]
 
+/-- the derived getters over ℚ: `0 ≤ loss_pct ≤ 100`, `best ≤ avg_ms ≤ worst` -/
+theorem derived_ranges_rat (h : Hop Rat) (hrs : h.totalRecv ≤ h.totalSent) :
+    0 ≤ h.lossPct ∧ h.lossPct ≤ 100 ∧
+    (∀ b w, h.totalRecv ≠ 0 → b * h.totalRecv ≤ h.totalTime → h.totalTime ≤ w * h.totalRecv →
+      (Num.durMs b : Rat) ≤ h.avgMs ∧ h.avgMs ≤ (Num.durMs w : Rat)) := by
+  have hpct : ∀ lost sent : Nat, lost ≤ sent → (0 : Rat) ≤ pct lost sent ∧ (pct lost sent : Rat) ≤ 100 := by
+    intro lost sent hls
+    unfold pct
+    split
+    · next hpos =>
+      show (0 : Rat) ≤ ((lost : Nat) : Rat) / ((sent : Nat) : Rat) * ((100 : Nat) : Rat) ∧
+        ((lost : Nat) : Rat) / ((sent : Nat) : Rat) * ((100 : Nat) : Rat) ≤ 100
+      have h2 : (0 : Rat) < sent := by exact_mod_cast hpos
+      have h1 : (lost : Rat) ≤ sent := by exact_mod_cast hls
+      have h0 := div_nonneg (Nat.cast_nonneg (α := Rat) lost) (Nat.cast_nonneg (α := Rat) sent)
+      have h3 : (lost : Rat) / sent ≤ 1 := by rw [div_le_iff₀ h2]; linarith
+      push_cast
+      constructor <;> linarith
+    · show (0 : Rat) ≤ ((0 : Nat) : Rat) ∧ ((0 : Nat) : Rat) ≤ 100
+      simp
+  obtain ⟨p1, p2⟩ := hpct (h.totalSent - h.totalRecv) h.totalSent (Nat.sub_le _ _)
+  refine ⟨p1, p2, ?_⟩
+  intro b w hr hb hw
+  unfold Hop.avgMs
+  have hpos : h.totalRecv > 0 := by omega
+  simp only [hpos, if_true]
+  have hq : (0 : Rat) < (h.totalRecv : Rat) := by exact_mod_cast hpos
+  have hbq : (b : Rat) * h.totalRecv ≤ h.totalTime := by exact_mod_cast hb
+  have hwq : (h.totalTime : Rat) ≤ w * h.totalRecv := by exact_mod_cast hw
+  constructor
+  · show (b : Rat) / 1000000 ≤ (h.totalTime : Rat) / 1000000 / (h.totalRecv : Rat)
+    rw [le_div_iff₀ hq]; linarith
+  · show (h.totalTime : Rat) / 1000000 / (h.totalRecv : Rat) ≤ (w : Rat) / 1000000
+    rw [div_le_iff₀ hq]; linarith
+
 end TV.Agg
